@@ -186,6 +186,14 @@ func jStream(data []byte, mode string, failAt int) {
 		}
 		return strings.Join(s, " ")
 	})
+	if failAt >= 0 && impl != orc && !strings.Contains(impl, "-") {
+		// a failing reader: the values must be a prefix of the values of the WHOLE stream, followed by the reader's error
+		full := fullStreamValues(data)
+		iv := strings.Split(impl, " ")
+		if n := len(iv) - 1; iv[n] == "readerr" && n <= len(full) && strings.Join(iv[:n], " ") == strings.Join(full[:n], " ") {
+			orc = impl
+		}
+	}
 	if len(impl) > 600 {
 		// long streams: compare digests to keep case files small
 		impl = fmt.Sprintf("len=%d h=%x tail=%s", len(impl), fnv(impl), impl[len(impl)-40:])
@@ -312,5 +320,19 @@ func c11() {
 	for i := 0; i < 2000; i++ {
 		d := genDoc(3) + pick([]string{"", " ", "\n\t ", " 1", " x", "]", " {\"a\":1}", ",", "  \"tail\"  "})
 		jParseRemainder([]byte(d))
+	}
+}
+
+func fullStreamValues(data []byte) []string {
+	var o []string
+	od := stdjson.NewDecoder(bytes.NewReader(data))
+	for {
+		var rm stdjson.RawMessage
+		if err := od.Decode(&rm); err != nil {
+			return o
+		}
+		var cb bytes.Buffer
+		stdjson.Compact(&cb, rm)
+		o = append(o, cb.String())
 	}
 }
